@@ -132,9 +132,25 @@ static void describe(impl::Lexicon& lex, int which, std::map<std::string, const 
 }
 
 // addresses of the constants, shared by every observation below, the one made before main() included
-static std::map<std::string, const void*>& addresses() { static std::map<std::string, const void*> a; return a; }
+// never destroyed: it is used by the object whose destructor runs after everything else
+static std::map<std::string, const void*>& addresses() { static auto* a = new std::map<std::string, const void*>; return *a; }
 
 namespace {
+   // A client object that is complete BEFORE the library is used for the first time, hence destroyed after main() has returned and after
+   // every object of static storage duration constructed later (function-local statics of the library included): its destructor consults
+   // a Lexicon, as a tool flushing its results at exit does.
+   struct After_main {
+      int armed = 1;
+      After_main() { std::fflush(stdout); }
+      ~After_main()
+      {
+         try { impl::Lexicon lex; describe(lex, 9, addresses()); }
+         catch (const std::exception& e) { std::printf("L9 exception what=%s\n", e.what()); }
+         std::fflush(stdout);
+      }
+   };
+   const After_main after_main;
+
    // A client whose namespace-scope object consults a Lexicon while ITS translation unit is being initialized (this file is
    // linked before the library): the constants and every route from a spelling to them are the same as from main().
    struct Before_main {
